@@ -516,3 +516,35 @@ _add(Prop(
           "signal node de-interleaves successive frames one buffer length per call, and every wrapper forwards the very "
           "same arguments exactly once.",
 ))
+
+
+_add(Prop(
+    "C07", "c07_noalloc", "c07",
+    functions=["alloc::alloc::{alloc, alloc_zeroed, realloc, realloc_nonnull, dealloc, dealloc_nonnull} (stubbed by "
+               "asserting / counting versions - every heap operation of the compiled code, std included, goes through them)",
+               "the public operations of dasp_sample, dasp_frame, dasp_slice (borrowed), dasp_ring_buffer, dasp_peak, dasp_rms, "
+               "dasp_envelope, dasp_interpolate (floor, linear, sinc), dasp_window, dasp_signal (all sources and adaptors, fork by "
+               "reference and by Rc, buffered, converter, mul_hz, windower) and the stock dasp_graph nodes driven directly"],
+    bounds="one harness per API area; objects constructed first, then 3-4 rounds of operations with symbolic values, lengths "
+           "and parameters in the steady phase; all loops fully unwound (unwinding assertions on); instantiations as listed in "
+           "the harness source (i16 / u8 / f32 / f64 frames, capacities 2-4, sinc depth 2, 64-sample graph buffers)",
+    outside="the BUS clause (backlog stops growing) and the GRAPH-PROCESSOR clause (Processor::process re-uses its buffers): "
+            "neither Bus nor process can be executed symbolically here (C13, C09); other instantiations; call sequences longer "
+            "than the bound - for struct-only adaptors no allocator call is reachable from next() at all, so the bound is "
+            "immaterial there, but that is an observation from the slice, not a separate verdict",
+    stubs=["alloc::alloc::alloc / alloc_zeroed / realloc / realloc_nonnull / dealloc / dealloc_nonnull -> versions that assert "
+           "!STEADY, count, and forward to __rust_alloc / __rust_alloc_zeroed / __rust_realloc / __rust_dealloc"],
+    assumptions=["sample values are kept small enough that no arithmetic-overflow panic (not an allocation question) ends a path early",
+                 "positive controls (Vec::push, Vec growth, Box drop in the steady phase) must be REFUTED on every run, "
+                 "otherwise the check reports itself inconclusive"],
+    rules=[
+        {"match": r"control::(vec_push|vec_grow|box_drop)", "expect": "fail"},
+        {"match": r"api::graph_nodes", "timeout": 1800},
+    ],
+    design_ref="DESIGN.md §4 C07",
+    claim="With the allocator entry points replaced by asserting stubs the solver explores every path of the real compiled "
+          "code (std included) for each API area and shows no allocation, reallocation or free is reachable once the objects "
+          "exist, for arbitrary input values, lengths and parameters within the bound; by_rc allocates exactly once, at "
+          "creation; user-supplied boxed ring-buffer storage keeps its address and length. Three positive controls prove on "
+          "every run that the stubs see Vec::push, Vec growth and Box drop.",
+))
